@@ -160,12 +160,12 @@ func init() {
 			t.Fatalf("vocab: %v", err)
 		}
 		keys, groups := vpGroup(env.cases, func(c *vpCase) string {
-			rp := c.In["via"] == "xfu"
+			rp := c.In["via"] == "xfu" || strings.HasPrefix(vpS(c.In, "via"), "rp_noise")
 			return fmt.Sprintf("%s|%v|%v", vpJSON(c.In["rules"]), c.In["preflight"], rp)
 		})
 		vpRunGroups(keys, groups, env.seed, func(rng *rand.Rand, key string, cs []*vpCase) {
 			first := cs[0]
-			cfg := &vpCfg{Preflight: vpB(first.In, "preflight"), ReverseProxy: first.In["via"] == "xfu"}
+			cfg := &vpCfg{Preflight: vpB(first.In, "preflight"), ReverseProxy: first.In["via"] == "xfu" || strings.HasPrefix(vpS(first.In, "via"), "rp_noise")}
 			if rl, ok := first.In["rules"].([]interface{}); ok {
 				for _, r := range rl {
 					txt, legacy := vpRuleText(voc, r.(map[string]interface{}))
@@ -191,6 +191,23 @@ func init() {
 				case "xfu":
 					req.Target = "/zz-decoy"
 					req.Header = append(req.Header, [2]string{"X-Forwarded-Uri", uri})
+				case "noise_get", "noise_options", "rp_noise_get", "rp_noise_options":
+					via := vpS(c.In, "via")
+					m := "GET"
+					if strings.HasSuffix(via, "options") {
+						m = "OPTIONS"
+					}
+					for _, h := range []string{"X-Forwarded-Method", "X-Http-Method-Override", "X-Original-Method", "X-Method-Override"} {
+						req.Header = append(req.Header, [2]string{h, m})
+					}
+					if strings.HasPrefix(via, "rp_") {
+						req.Target = "/zz-decoy"
+						req.Header = append(req.Header, [2]string{"X-Forwarded-Uri", uri})
+					} else {
+						for _, h := range []string{"X-Original-Url", "X-Rewrite-Url", "X-Forwarded-Path", "X-Original-Uri"} {
+							req.Header = append(req.Header, [2]string{h, voc.text([]string{"sl", "a"})})
+						}
+					}
 				case "decoy":
 					// reverse-proxy mode is off: a forwarded URI that would match must be ignored
 					req.Header = append(req.Header, [2]string{"X-Forwarded-Uri", voc.text([]string{"sl", "a"})})
